@@ -5,9 +5,9 @@ import (
 	"fmt"
 	"math/rand/v2"
 	"os"
-	"path/filepath"
 	"regexp"
 	"strings"
+	"sync"
 	"testing"
 	"time"
 
@@ -71,7 +71,7 @@ const probeHeight = uint64(1) << 62
 // the same entries plus the appended one (this is what notices an untruncated
 // torn tail or a recovery that left files in an unreadable state).
 func checkImage(im image, alts []alt, src string) (matched int, p *problem) {
-	base, err := os.MkdirTemp("", "c14img")
+	base, err := os.MkdirTemp(imageScratch(), "c14img")
 	if err != nil {
 		panic(err)
 	}
@@ -111,11 +111,22 @@ func checkDir(base string, alts []alt, src, files string) (matched int, p *probl
 			Got: trunc(got, 60), Want: trunc(alts[0].view, 60), Files: files}
 	}
 	// the recovered store must remain usable
+	// (several legal outcomes can show the same entries and differ only in the
+	// watermark, e.g. an in-flight batch that prunes everything: the probe entry is
+	// then expected to survive or not, depending on which one the image really is)
 	pe := entrySpec{Kind: ePrevote, H: probeHeight, R: 7, Tag: 0xfeedface}
-	want := append([]string(nil), alts[matched].view...)
-	if probeHeight > alts[matched].w {
-		want = append(want, render(pe.build()))
+	var wants [][]string
+	for _, a := range alts {
+		if !equalViews(got, a.view) {
+			continue
+		}
+		w := append([]string(nil), a.view...)
+		if probeHeight > a.w {
+			w = append(w, render(pe.build()))
+		}
+		wants = append(wants, w)
 	}
+	want := wants[0]
 	if err := ws.SetWALEntry(pe.build()); err != nil {
 		ws.Close()
 		return matched, &problem{Class: src + ":append-after-recovery-fails:" + errClass(err), Brief: err.Error(), Files: files}
@@ -134,13 +145,38 @@ func checkDir(base string, alts []alt, src, files string) (matched int, p *probl
 	}
 	got2, err := loadView(ws2)
 	ws2.Close()
-	if err != nil || !equalViews(got2, want) {
+	ok2 := false
+	for _, w := range wants {
+		if equalViews(got2, w) {
+			ok2 = true
+		}
+	}
+	if err != nil || !ok2 {
 		return matched, &problem{Class: src + ":second-reopen-illegal-entries:" + diffViews(got2, want),
 			Brief: fmt.Sprintf("after recovery + one appended batch the next reopen returned %d entries, expected %d", len(got2), len(want)),
 			Got: trunc(got2, 60), Want: trunc(want, 60), Files: files}
 	}
 	return matched, nil
 }
+
+var imageScratchOnce = sync.OnceValue(func() string {
+	// Crash images are re-created tens of thousands of times and each check syncs
+	// several times; they live on tmpfs when there is one (the images are byte
+	// copies, the file system they are replayed on does not matter to the oracle).
+	// The scripts themselves and the strace children run on the default temp dir.
+	if d := os.Getenv("VERIF_C14_IMAGE_DIR"); d != "" {
+		return d
+	}
+	if st, err := os.Stat("/dev/shm"); err == nil && st.IsDir() {
+		if d, err := os.MkdirTemp("/dev/shm", "c14probe"); err == nil {
+			os.RemoveAll(d)
+			return "/dev/shm"
+		}
+	}
+	return ""
+})
+
+func imageScratch() string { return imageScratchOnce() }
 
 // ---------------------------------------------------------------- log file structure (independent of pebble's reader)
 
@@ -569,13 +605,34 @@ func runScript(r *lib.Run, idx int, sc script, tornBudget int) {
 	}
 }
 
-func TestC14(t *testing.T) {
-	if _, err := os.Stat(filepath.Join(os.TempDir())); err != nil {
-		t.Fatal(err)
+// heightZeroNote records (as a note, not a verdict) how the store treats height 0:
+// the consensus service starts at chain height + 1 >= 1, so generated scripts use
+// heights >= 1 only.
+func heightZeroNote(r *lib.Run) {
+	base, err := os.MkdirTemp("", "c14z")
+	if err != nil {
+		return
 	}
+	defer os.RemoveAll(base)
+	ws, err := openStore(base)
+	if err != nil {
+		return
+	}
+	defer ws.Close()
+	e := entrySpec{Kind: eStart, H: 0, Tag: 1}
+	if ws.SetWALEntry(e.build()) != nil || ws.Flush() != nil {
+		return
+	}
+	v, _ := loadView(ws)
+	if len(v) == 0 {
+		r.Note("observation (outside the workload): an entry at height 0 is accepted by SetWALEntry+Flush and silently dropped (the initial watermark 0 is inclusive); consensus heights start at 1, scripts use heights >= 1")
+	}
+}
+
+func TestC14(t *testing.T) {
 	r := lib.Start("C14", "fault_enumeration")
 	t0 := time.Now()
-	n := r.N(30, 400)
+	n := r.N(30, 300)
 	tornPerScript := 260
 	if !r.Quick() {
 		tornPerScript = 1500
@@ -586,6 +643,7 @@ func TestC14(t *testing.T) {
 		runScript(r, idx, sc, tornPerScript)
 		fmt.Printf("script %d %s ops=%d took %.1fs (information only)\n", idx, sc.Profile, len(sc.Ops), time.Since(ts).Seconds())
 	})
+	heightZeroNote(r)
 	t1 := time.Now()
 	straceLayer(r, t)
 	r.Note(fmt.Sprintf("timing (information only): in-process layers %.0fs, strace layers %.0fs", t1.Sub(t0).Seconds(), time.Since(t1).Seconds()))
